@@ -278,6 +278,11 @@ pub fn parse_linked_list(to_parse: &str) -> Result<Unifiable, String> {
                         let err = pll_error("Too many vertical bars", s);
                         return Err(err);
                     }
+                    // The tail variable must be the last term: [a, b | $T]
+                    if end_index != length_args {
+                        let err = pll_error("Tail variable must be last", s);
+                        return Err(err);
+                    }
                     let term_str =
                             chars_to_string!(&arguments_chars[ind + 1..end_index]);
                     let term_str2 = term_str.trim();
